@@ -125,7 +125,8 @@ L210 == << f("20"), o("25"), f("30"),
 
 L290 == L190
 L291 == << f("20"), f("21"), f("32B"), O("52", T52AD), O("57", T57ABD), f("71B"), o("72") >>
-L292 == L192
+\* n92: "79 or a copy of the original fields" -- the library models no copy, so 79 is required
+L292 == << f("20"), f("21"), f("11S"), f("79") >>
 L296 == << f("20"), f("21"), f("76"), o("77A"), o("11R"), o("11S"), o("79") >>
 L299 == L199
 
